@@ -66,12 +66,13 @@ func TestVerif_C16Retry(t *testing.T) {
 			seen[c16Key(c.Kind, c.key, c.height)] = 1 // answered at the first message
 		}
 		accepted := make(chan struct{})
+		var acceptedOnce sync.Once
 		e, err := newCEnv(cOpt{connType: connType, requestTimeout: c16Timeout, messageTimeout: c16rMessageTimeout,
 			handshakeTO: 3 * time.Second, retryDelay: 30 * time.Millisecond, autoReady: true},
 			func(vc *vconn) {
 				time.Sleep(c16rAcceptDelay)
 				vc.sendAccept("", nil)
-				close(accepted)
+				acceptedOnce.Do(func() { close(accepted) }) // (the client may connect again)
 				for m := range vc.in {
 					key, isReq := script.keyOfRequest(m)
 					if !isReq {
@@ -187,7 +188,7 @@ func TestVerif_C16Retry(t *testing.T) {
 				rep.Finding(ci, "C16/"+c.Kind+"/wrong-response", c.valueErr, witness())
 			case isTimeout && c.wroteAt > 0 && c.wroteAt-c.start < c16Timeout-120*time.Millisecond:
 				if verifkit.OnlyCase() >= 0 {
-					rep.Finding(ci, "C16/"+c.Kind+"/answered-call-timed-out/retry-after-failed-send", fmt.Sprintf("%s: the first call for this key failed before the handshake; the retry was answered %v after it started and still failed with Timeout", c.Kind, (c.wroteAt - c.start).Round(time.Millisecond)), witness())
+					rep.Finding(ci, "C16/"+c.Kind+"/answered-call-timed-out/retry-after-failed-send", fmt.Sprintf("%s: the first call for this key failed before the handshake; the retry was answered %v after it started and still failed with Timeout", c.Kind, (c.wroteAt-c.start).Round(time.Millisecond)), witness())
 				} else {
 					rep.Inconc(ci, c.Kind+" answered but timed out (re-run alone)")
 				}
